@@ -724,47 +724,6 @@ pub struct Tagged<K, V: ?Sized>(pub K, pub V);
 // Default::default(), 7 after a write through deref_mut).  Clone, Default and the operators log
 // their calls; results of operators keep the tag of the LEFT operand.
 // ---------------------------------------------------------------------------------------------
-#[derive(Debug)]
-pub struct W(pub u8, pub u8);
-impl Clone for W {
-    fn clone(&self) -> Self {
-        log(format!("clone:{}:{}", self.1, self.0));
-        W(self.0, self.1)
-    }
-    fn clone_from(&mut self, source: &Self) {
-        log(format!("clone_from:{}:{}:{}:{}", self.1, self.0, source.1, source.0));
-        self.0 = source.0;
-        self.1 = source.1;
-    }
-}
-impl Default for W {
-    fn default() -> Self {
-        log("default".to_string());
-        W(0, 9)
-    }
-}
-impl PartialEq for W {
-    fn eq(&self, o: &Self) -> bool {
-        self.0 == o.0
-    }
-}
-impl Eq for W {}
-impl PartialOrd for W {
-    fn partial_cmp(&self, o: &Self) -> Option<Ordering> {
-        Some(self.0.cmp(&o.0))
-    }
-}
-impl Ord for W {
-    fn cmp(&self, o: &Self) -> Ordering {
-        self.0.cmp(&o.0)
-    }
-}
-impl Hash for W {
-    fn hash<H: Hasher>(&self, state: &mut H) {
-        state.write_u8(100);
-        state.write_u8(self.0);
-    }
-}
 pub fn w_op(op: &str, a: u8, b: u8) -> u8 {
     match op {
         "add" => (a + b) % 6,
@@ -773,78 +732,132 @@ pub fn w_op(op: &str, a: u8, b: u8) -> u8 {
     }
 }
 macro_rules! w_binop {
-    ($Tr:ident, $f:ident, $TrA:ident, $fa:ident, $name:expr) => {
-        impl std::ops::$Tr<W> for W {
-            type Output = W;
-            fn $f(self, r: W) -> W {
+    ($N:ident, $Tr:ident, $f:ident, $TrA:ident, $fa:ident, $name:expr) => {
+        impl std::ops::$Tr<$N> for $N {
+            type Output = $N;
+            fn $f(self, r: $N) -> $N {
                 log(format!("{}:vv:{}:{}:{}:{}", $name, self.1, self.0, r.1, r.0));
-                W(w_op($name, self.0, r.0), self.1)
+                $N(w_op($name, self.0, r.0), self.1)
             }
         }
-        impl<'a> std::ops::$Tr<&'a W> for W {
-            type Output = W;
-            fn $f(self, r: &'a W) -> W {
+        impl<'a> std::ops::$Tr<&'a $N> for $N {
+            type Output = $N;
+            fn $f(self, r: &'a $N) -> $N {
                 log(format!("{}:vr:{}:{}:{}:{}", $name, self.1, self.0, r.1, r.0));
-                W(w_op($name, self.0, r.0), self.1)
+                $N(w_op($name, self.0, r.0), self.1)
             }
         }
-        impl<'a> std::ops::$Tr<W> for &'a W {
-            type Output = W;
-            fn $f(self, r: W) -> W {
+        impl<'a> std::ops::$Tr<$N> for &'a $N {
+            type Output = $N;
+            fn $f(self, r: $N) -> $N {
                 log(format!("{}:rv:{}:{}:{}:{}", $name, self.1, self.0, r.1, r.0));
-                W(w_op($name, self.0, r.0), self.1)
+                $N(w_op($name, self.0, r.0), self.1)
             }
         }
-        impl<'a, 'b> std::ops::$Tr<&'b W> for &'a W {
-            type Output = W;
-            fn $f(self, r: &'b W) -> W {
+        impl<'a, 'b> std::ops::$Tr<&'b $N> for &'a $N {
+            type Output = $N;
+            fn $f(self, r: &'b $N) -> $N {
                 log(format!("{}:rr:{}:{}:{}:{}", $name, self.1, self.0, r.1, r.0));
-                W(w_op($name, self.0, r.0), self.1)
+                $N(w_op($name, self.0, r.0), self.1)
             }
         }
-        impl std::ops::$TrA<W> for W {
-            fn $fa(&mut self, r: W) {
+        impl std::ops::$TrA<$N> for $N {
+            fn $fa(&mut self, r: $N) {
                 log(format!("{}_assign:v:{}:{}:{}:{}", $name, self.1, self.0, r.1, r.0));
                 self.0 = w_op($name, self.0, r.0);
             }
         }
-        impl<'a> std::ops::$TrA<&'a W> for W {
-            fn $fa(&mut self, r: &'a W) {
+        impl<'a> std::ops::$TrA<&'a $N> for $N {
+            fn $fa(&mut self, r: &'a $N) {
                 log(format!("{}_assign:r:{}:{}:{}:{}", $name, self.1, self.0, r.1, r.0));
                 self.0 = w_op($name, self.0, r.0);
             }
         }
     };
 }
-w_binop!(Add, add, AddAssign, add_assign, "add");
-w_binop!(Sub, sub, SubAssign, sub_assign, "sub");
-impl std::ops::Neg for W {
-    type Output = W;
-    fn neg(self) -> W {
-        log(format!("neg:v:{}:{}", self.1, self.0));
-        W((6 - self.0) % 6, self.1)
-    }
+macro_rules! def_w {
+    ($(#[$m:meta])* $N:ident) => {
+        $(#[$m])*
+                pub struct $N(pub u8, pub u8);
+        impl ::std::fmt::Debug for $N {
+            // (both guises print as `W(val, tag)`, flags reach the fields as with a derived Debug)
+            fn fmt(&self, f: &mut ::std::fmt::Formatter<'_>) -> ::std::fmt::Result {
+                f.debug_tuple("W").field(&self.0).field(&self.1).finish()
+            }
+        }
+        impl Clone for $N {
+            fn clone(&self) -> Self {
+                log(format!("clone:{}:{}", self.1, self.0));
+                $N(self.0, self.1)
+            }
+            fn clone_from(&mut self, source: &Self) {
+                log(format!("clone_from:{}:{}:{}:{}", self.1, self.0, source.1, source.0));
+                self.0 = source.0;
+                self.1 = source.1;
+            }
+        }
+        impl Default for $N {
+            fn default() -> Self {
+                log("default".to_string());
+                $N(0, 9)
+            }
+        }
+        impl PartialEq for $N {
+            fn eq(&self, o: &Self) -> bool {
+                self.0 == o.0
+            }
+        }
+        impl Eq for $N {}
+        impl PartialOrd for $N {
+            fn partial_cmp(&self, o: &Self) -> Option<Ordering> {
+                Some(self.0.cmp(&o.0))
+            }
+        }
+        impl Ord for $N {
+            fn cmp(&self, o: &Self) -> Ordering {
+                self.0.cmp(&o.0)
+            }
+        }
+        impl Hash for $N {
+            fn hash<H: Hasher>(&self, state: &mut H) {
+                state.write_u8(100);
+                state.write_u8(self.0);
+            }
+        }
+        w_binop!($N, Add, add, AddAssign, add_assign, "add");
+        w_binop!($N, Sub, sub, SubAssign, sub_assign, "sub");
+        impl std::ops::Neg for $N {
+            type Output = $N;
+            fn neg(self) -> $N {
+                log(format!("neg:v:{}:{}", self.1, self.0));
+                $N((6 - self.0) % 6, self.1)
+            }
+        }
+        impl<'a> std::ops::Neg for &'a $N {
+            type Output = $N;
+            fn neg(self) -> $N {
+                log(format!("neg:r:{}:{}", self.1, self.0));
+                $N((6 - self.0) % 6, self.1)
+            }
+        }
+        // decoys: inherent methods named like the trait methods (method-call syntax in generated code would pick these)
+        impl $N {
+            pub fn clone(&self) -> Self { log("decoy:clone".to_string()); $N(99, 99) }
+            pub fn clone_from(&mut self, _s: &Self) { log("decoy:clone_from".to_string()); self.1 = 98; }
+            pub fn eq(&self, _o: &Self) -> bool { log("decoy:eq".to_string()); false }
+            pub fn cmp(&self, _o: &Self) -> Ordering { log("decoy:cmp".to_string()); Ordering::Greater }
+            pub fn partial_cmp(&self, _o: &Self) -> Option<Ordering> { log("decoy:partial_cmp".to_string()); None }
+            pub fn hash<H>(&self, _s: &mut H) { log("decoy:hash".to_string()); }
+            pub fn add(self, _r: $N) -> $N { log("decoy:add".to_string()); $N(97, 97) }
+            pub fn sub(self, _r: $N) -> $N { log("decoy:sub".to_string()); $N(97, 97) }
+            pub fn neg(self) -> $N { log("decoy:neg".to_string()); $N(97, 97) }
+            pub fn default() -> $N { log("decoy:default".to_string()); $N(96, 96) }
+        }
+    };
 }
-impl<'a> std::ops::Neg for &'a W {
-    type Output = W;
-    fn neg(self) -> W {
-        log(format!("neg:r:{}:{}", self.1, self.0));
-        W((6 - self.0) % 6, self.1)
-    }
-}
-// decoys: inherent methods named like the trait methods (method-call syntax in generated code would pick these)
-impl W {
-    pub fn clone(&self) -> Self { log("decoy:clone".to_string()); W(99, 99) }
-    pub fn clone_from(&mut self, _s: &Self) { log("decoy:clone_from".to_string()); self.1 = 98; }
-    pub fn eq(&self, _o: &Self) -> bool { log("decoy:eq".to_string()); false }
-    pub fn cmp(&self, _o: &Self) -> Ordering { log("decoy:cmp".to_string()); Ordering::Greater }
-    pub fn partial_cmp(&self, _o: &Self) -> Option<Ordering> { log("decoy:partial_cmp".to_string()); None }
-    pub fn hash<H>(&self, _s: &mut H) { log("decoy:hash".to_string()); }
-    pub fn add(self, _r: W) -> W { log("decoy:add".to_string()); W(97, 97) }
-    pub fn sub(self, _r: W) -> W { log("decoy:sub".to_string()); W(97, 97) }
-    pub fn neg(self) -> W { log("decoy:neg".to_string()); W(97, 97) }
-    pub fn default() -> W { log("decoy:default".to_string()); W(96, 96) }
-}
+def_w!(W);
+// Wc: the same, Copy (its Clone impl still logs: a derived Clone must call it even when Copy is derived next to it)
+def_w!(#[derive(Copy)] Wc);
 /// projection of a W for the life-cycle traces: "val:tag"
 pub fn w_proj(x: &W) -> String {
     format!("[{},{}]", x.0, x.1)
